@@ -183,7 +183,12 @@ func (cr *caseRunner) run(s scenario) {
 	}
 	// case re-spellings of the query (C20), engine level
 	if cr.props["C20"] {
-		for _, vq := range caseVariants(q) {
+		variants := caseVariants(q)
+		if s.Entry == "cli" { // spare white space is squeezed by the command line front end
+			variants = append(variants, "  "+q, q+"   ", strings.ReplaceAll(q, " ", "   "), "\t"+strings.ReplaceAll(q, " ", " \t ")+"\n",
+				" "+strings.ToUpper(strings.ReplaceAll(q, " ", "  "))+" ")
+		}
+		for _, vq := range variants {
 			vs := s
 			vs.Raw, vs.Query = vq, "raw"
 			vo, _ := runEntry(c, vs, vq)
@@ -212,6 +217,13 @@ func caseVariants(q string) []string {
 		}
 	}
 	cands := []string{up, title, string(alt)}
+	// code points whose lower case is an ASCII/Latin letter: KELVIN SIGN -> k, ANGSTROM SIGN -> å
+	if strings.ContainsAny(q, "kK") {
+		cands = append(cands, strings.NewReplacer("k", "\u212a", "K", "\u212a").Replace(q))
+	}
+	if strings.ContainsAny(q, "åÅ") {
+		cands = append(cands, strings.NewReplacer("å", "\u212b", "Å", "\u212b").Replace(q))
+	}
 	out := []string{}
 	seen := map[string]bool{q: true}
 	for _, v := range cands {
